@@ -31,13 +31,13 @@ FLAVOURS = {
     # memory-error oracle (ASan + UBSan); -O1 keeps the heavy object at ~4 min
     "asan": dict(cxx="clang++",
                  flags="-O1 -fno-omit-frame-pointer -fsanitize=address,undefined "
-                       "-fno-sanitize=float-divide-by-zero,float-cast-overflow,vptr,function "
+                       "-fno-sanitize=float-divide-by-zero,float-cast-overflow,vptr,function,enum "
                        "-fno-sanitize-recover=undefined " + COMMON,
                  ld="-fsanitize=address,undefined"),
     # coverage-guided fuzzing of the whole object
     "fuzz": dict(cxx="clang++",
                  flags="-O1 -fno-omit-frame-pointer -fsanitize=fuzzer-no-link,address,undefined "
-                       "-fno-sanitize=float-divide-by-zero,float-cast-overflow,vptr,function "
+                       "-fno-sanitize=float-divide-by-zero,float-cast-overflow,vptr,function,enum "
                        "-fno-sanitize-recover=undefined " + COMMON,
                  ld="-fsanitize=fuzzer,address,undefined"),
     "tsan": dict(cxx="clang++", flags="-O1 -fsanitize=thread " + COMMON, ld="-fsanitize=thread"),
